@@ -1,12 +1,17 @@
 ------------------------------- MODULE PllMC -------------------------------
 EXTENDS Pll, Json
 
+CONSTANT StepDen     \* simulation: an external step lands inside a call at 1 of StepDen allowed places
+
 \* ---- value sets (cfg files cannot hold negative numbers or expressions)
 \* offsets: 0, +-0.5 ms, +-1 ms, +-(1 ms + 1 ns), +-large, +-MaxInt64, MinInt64
 OffsFull  == {0, 1, -1, 2, -2, 3, -3, 10, -10, 20, -20, -21}
 OffsNoMin == {0, 1, -1, 2, -2, 3, -3, 10, -10, 20, -20}
 OffsSmall == {0, 2, -3, 10, -21}
 OffsSmallNoMin == {0, 2, -3, 10, -20}
+\* histories with external steps inside calls (generator, quick tier): the offset / weight classes that decide
+OffsIn == {0, 10}
+WeightsIn == {3, 4}
 \* weights: <= 3 (incl. exactly 3, 0 / denormal, negative), 3 < w < 50, 50 <= w < 150, >= 150, NaN, +Inf, -Inf
 WeightsFull  == {2, 3, 4, 49, 50, 149, 150, 0, -5, WNaN, WPosInf, WNegInf}
 WeightsSmall == {3, 4, 150, WNaN}
@@ -19,40 +24,68 @@ AdvsSmall == {0, 500, 2000, 2001, 6001}
 RawMagsFull(b) == {0, 1, b - 1, b, b + 1, 2 * b + 7}
 RawMagsOne(b)  == {2 * b + 7}
 
+\* jumps of the reading that come with an external step inside a call (ms):
+\* none, short, just beyond the 2 s wait, just beyond the 6 s wait
+JumpsSmall == {0, 2001}
+JumpsFull  == {0, 500, 2001, 6001}
+
 \* ---- views
 \* Sound for the property section: only differences of readings against the
 \* thresholds matter; they are capped just above the largest threshold.
+\* The last call and its inputs do not influence the future and are left out
+\* between calls (the property is checked on every transition, C19Step, not on
+\* every distinct state); while a call is in progress everything is kept.
 Cap(x) == IF x > 300 * U + 1 THEN 300 * U + 2 ELSE x
-ViewSound == <<mode, clkEpoch - epoch, Cap(TSub(now, t0)), TSub(now, t), Cap(TSub(now, estart)),
-               act, lastIn, Len(hist)>>
-\* Same without the last call and its inputs: they do not influence the future,
-\* and the property is then checked on every transition (C19Step) instead of
-\* on every distinct state.
-ViewCore == <<mode, clkEpoch - epoch, Cap(TSub(now, t0)), TSub(now, t), Cap(TSub(now, estart)), Len(hist)>>
+ViewCore == <<mode, clkEpoch - epoch, Cap(TSub(now, t0)), TSub(now, t), Cap(TSub(now, estart)),
+              TSub(now, nowIn), Len(hist), nin, pc,
+              IF pc = "idle" THEN << >>
+              ELSE IF pc = "ret" THEN <<nacc, stp>>
+              ELSE <<nacc, stp, IF pc = "sw" \/ ReadsNowFirst THEN TSub(now, rnow) ELSE 0,
+                     Cap(TSub(now, esIn)), TSub(now, prevLo), cur.modeB, cur.obs>> >>
 \* Coverage heuristic for the generator (not a bisimulation): position of the
 \* differences relative to the thresholds.
 Cls(x) == IF x = 0 THEN 0 ELSE IF x < 2 * U THEN 1 ELSE IF x = 2 * U THEN 2 ELSE IF x < 6 * U THEN 3
           ELSE IF x = 6 * U THEN 4 ELSE IF x <= 300 * U THEN 5 ELSE 6
-ViewGen == <<mode, clkEpoch - epoch, Cls(TSub(now, t0)), Cls(TSub(now, estart)),
-             act.k, lastIn.off, lastIn.w, lastIn.modeB, lastIn.obs, Cls(lastIn.dt), Cls(lastIn.since), Len(hist)>>
+ViewGen == <<mode, clkEpoch - epoch, Cls(TSub(now, t0)), Cls(TSub(now, estart)), Cls(TSub(now, nowIn)),
+             act.k, lastIn.off, lastIn.w, lastIn.modeB, lastIn.obs, Cls(lastIn.dt), Cls(lastIn.since), Cls(lastIn.sinceIn),
+             Len(hist), nin, pc,
+             IF pc = "idle" THEN << >>
+             ELSE <<nacc, stp, Cls(TSub(now, rnow)), Cls(TSub(now, esIn)), cur.modeB, cur.obs, pend.k,
+                    cur.adv, cur.sat, cur.bump, cur.off, cur.w>> >>
 
 \* ---- simulation (random behaviour generator, tlc -simulate): one random
-\* input per step (a single successor, so a walk costs one evaluation of Do per
-\* update); a finished history stutters so that every walk reaches the depth.
+\* successor per step; an external step lands at an allowed place with
+\* probability 1 / StepDen; a finished history stutters so that every walk
+\* reaches the depth.  (The sets given to RandomElement mention a variable:
+\* TLC evaluates constant expressions once.)
 AdvChoices == Advs \cup (IF AllowSat THEN {-1} ELSE {})
-UpdateRand ==
-  /\ Len(hist) < MaxLen
-  /\ \E bi \in {RandomElement(1 .. BumpDen)}, adv \in {RandomElement(AdvChoices)},
-        off \in {RandomElement(Offs)}, w \in {RandomElement(Weights)} :
-       LET in == [adv |-> IF adv < 0 THEN 0 ELSE adv, sat |-> adv < 0, bump |-> bi = 1, off |-> off, w |-> w]
-       IN \E raw \in {RandomElement(Raws(in))} : Do(in, raw)
-NextSim == UpdateRand \/ (Len(hist) = MaxLen /\ UNCHANGED vars)
+V0 == 0 * Len(hist)
+DoCallRand ==
+  /\ pc = "idle" /\ Len(hist) < MaxLen
+  /\ \E bi \in {RandomElement(1 .. BumpDen + V0)}, adv \in {RandomElement(AdvChoices \cup {x \in {0} : V0 = 1})} :
+       Set(FCall(S, [adv |-> IF adv < 0 THEN 0 ELSE adv, sat |-> adv < 0, bump |-> bi = 1]))
+DoSwRand ==
+  /\ pc = "sw"
+  /\ \E off \in {RandomElement(Offs \cup {x \in {0} : V0 = 1})}, w \in {RandomElement(Weights \cup {x \in {0} : V0 = 1})} :
+       \E raw \in {RandomElement(Raws(S, off))} :
+         LET s1 == FSw(S, off, w, raw)
+         IN IF s1.pc = "act" /\ EnvOK(s1) /\ RandomElement(1 .. StepDen + V0) = 1
+            THEN \E j \in {RandomElement(Jumps \cup {x \in {0} : V0 = 1})} : Set(FAct(FEnv(s1, j)))
+            ELSE SwThenAct(s1)
+EnvStepRand == EnvEnabled /\ \E j \in {RandomElement(Jumps \cup {x \in {0} : V0 = 1})} : Set(FEnv(S, j))
+NextSim ==
+  \/ DoCallRand
+  \/ /\ pc # "idle"
+     /\ IF EnvEnabled /\ RandomElement(1 .. StepDen + V0) = 1 THEN EnvStepRand
+        ELSE DoE1 \/ DoE2 \/ DoNow \/ DoSwRand \/ DoRet
+  \/ (pc = "idle" /\ Len(hist) = MaxLen /\ Set([S EXCEPT !.pc = "done"]))     \* (Emit prints once)
+  \/ (pc = "done" /\ UNCHANGED vars)
 SpecSim == Init /\ [][NextSim]_vars
 
 \* ---- behaviour emitter (spec -> code): complete histories with the expected outputs
 Bumps[i \in 0 .. Len(hist)] ==
   IF i = 0 THEN 0
-  ELSE Bumps[i - 1] + (IF hist[i].bump THEN 1 ELSE 0) + (IF hist[i].k = "step" THEN 1 ELSE 0)
+  ELSE Bumps[i - 1] + (IF hist[i].bump THEN 1 ELSE 0) + (IF hist[i].k = "step" THEN 1 ELSE 0) + Len(hist[i].st)
 C0 == clkEpoch - Bumps[Len(hist)]     \* the clock epoch at creation
-Emit == Len(hist) = MaxLen => PrintT(<<"CASE", ToJson([c0 |-> C0, u |-> hist])>>)
+Emit == (pc = "idle" /\ Len(hist) = MaxLen) => PrintT(<<"CASE", ToJson([c0 |-> C0, u |-> hist])>>)
 =============================================================================
